@@ -492,8 +492,15 @@ def startCursor : List Seg → Option Cursor
   | ⟨i, h :: t⟩ :: rest => some ⟨[], i, [], h, t, rest⟩
   | _ => none
 
+def segsOf : List Edge → Option (List Seg)
+  | [] => some []
+  | e :: es =>
+    match edgeSeg e, segsOf es with
+    | some s, some r => some (s :: r)
+    | _, _ => none
+
 def pathOf (edges : List Edge) : Option Cursor :=
-  match edges.mapM edgeSeg with
+  match segsOf edges with
   | some segs => startCursor segs
   | none => none
 
@@ -582,12 +589,12 @@ def Edge.ases (e : Edge) : List Nat :=
 
 def Edge.kind (e : Edge) : Nat := if e.core then 1 else if e.down then 2 else 0
 
-/-- an edge as the combinator may use it: a registered segment of the right kind; core segments
-    whole and never in construction direction; at least two ASes unless the single AS is the
-    peering AS -/
+/-- an edge as the combinator may use it (or its mirror image, which is what a reversed path
+    consists of): a registered segment of the right kind; core segments whole; at least two ASes
+    unless the single AS is the peering AS -/
 def Edge.Valid (mac : MacFn) (net : Net) (e : Edge) : Prop :=
   Registered mac net e.core e.seg ∧ e.shortcut < e.seg.entries.length ∧
-  (e.core = true → e.down = false ∧ e.shortcut = 0 ∧ e.peer = none) ∧
+  (e.core = true → e.shortcut = 0 ∧ e.peer = none) ∧
   (e.peer = none → e.shortcut + 1 < e.seg.entries.length) ∧
   (∀ k, e.peer = some k → ∃ x p, e.seg.entries[e.shortcut]? = some x ∧ x.peers[k]? = some p)
 
